@@ -112,6 +112,24 @@ class BitsDom:
                 return False
             if _cmp_eq_guard(g, is_nb, is_w):
                 return w[-1]
+        # the same fact spelled as two exits: `if W < x.nbits: raise ... elif W > x.nbits: raise ...`
+        rel = {}
+        for g in guards_of(at):
+            t = g.test
+            if g.polarity is not False or not (isinstance(t, ast.Compare) and len(t.ops) == 1 and isinstance(t.ops[0], (ast.Lt, ast.Gt))):
+                continue
+            def is_nb2(x):
+                return isinstance(x, ast.Attribute) and isinstance(x.value, ast.Name) and x.value.id == name and x.attr in ('nbits', '_nbits')
+            l, r_ = t.left, t.comparators[0]
+            for nb, other, flip in ((l, r_, False), (r_, l, True)):
+                if is_nb2(nb):
+                    wt = width_term(other, at, self.func)
+                    if wt is not None:
+                        less = isinstance(t.ops[0], ast.Lt) != flip        # "x.nbits < W" excluded  vs  "x.nbits > W" excluded
+                        rel.setdefault(wt, set()).add('lt' if less else 'gt')
+        for wt, seen in rel.items():
+            if seen == {'lt', 'gt'}:
+                return wt
         return None
 
     def int_name_width(self, name, at):
